@@ -1,40 +1,15 @@
-(* C18_bridge: the generated model of pymeeus.Earth (ideal instance) computes the
-   real functions of C18_spec.  Every lemma here re-evaluates the generated text,
-   so a change of a formula in Earth.py breaks the corresponding lemma. *)
+(* C18_bridge: Ellipsoid.b/e, the built-in ellipsoids, Earth(...) and Earth.rho_sinphi /
+   rho_cosphi of the generated model (ideal instance) compute the real functions of C18_spec.
+   Every lemma re-evaluates the generated text, so a change of a formula in Earth.py breaks it. *)
 From Coq Require Import Reals ZArith List Bool Lra Lia String.
 From PyLib Require Import PyVal PyBuiltins Ideal Whnf PyEval.
 From Gen Require Import M_base M_Angle M_Epoch M_Interpolation M_Coordinates M_Earth.
-From Proofs.C18 Require Import C18_tac C18_spec.
+From Proofs.C18 Require Import C18_tac C18_spec C18_defs.
 Import ListNotations.
 Open Scope R_scope.
 
-Definition ell (a f w : R) : val R := VObj cEllipsoid [VFloat a; VFloat f; VFloat w].
-Definition earth (a f w : R) : val R := VObj cEarth [ell a f w].
-Definition rad (d : R) : R := d * (PI / 180).
-
-(* a latitude/longitude argument: float degrees, int degrees or an Angle object *)
-Inductive degval : val R -> R -> Prop :=
-| deg_float d : degval (VFloat d) d
-| deg_int z : degval (VInt z) (IZR z)
-| deg_angle d t : degval (VObj cAngle [VFloat d; VFloat t]) d.
-
-(* heights: int or float metres *)
-Inductive numval : val R -> R -> Prop :=
-| num_float h : numval (VFloat h) h
-| num_int z : numval (VInt z) (IZR z).
-
 Lemma b_ok a f w : Ellipsoid_b Rops (ell a f w) = VFloat (semi_minor a f).
 Proof. pyrunx. Rlit_norm. unfold semi_minor. f_equal. lra. Qed.
-
-(* model-shaped expressions (literals as the translator writes them) *)
-Definition m_e (f : R) : R := sqrt (Rlit 20 (-1) * f - f * f).
-Definition m_w (f phi : R) : R := Rlit 10 (-1) - m_e f * m_e f * sin phi * sin phi.
-Lemma m_e_eq f : m_e f = ecc f.
-Proof. unfold m_e, ecc, ecc2. Rlit_norm. f_equal. lra. Qed.
-Lemma m_w_eq f phi : 0 <= f <= 1 -> m_w f phi = wfac f phi.
-Proof.
-  intro H. unfold m_w. rewrite m_e_eq. unfold wfac. rewrite <- (ecc_sq f H). Rlit_norm. field.
-Qed.
 
 Lemma e_ok a f w : 0 <= f <= 1 -> Ellipsoid_e Rops (ell a f w) = VFloat (ecc f).
 Proof.
@@ -81,16 +56,3 @@ Proof.
   - pyrunx; rewrite !E; reflexivity.
 Qed.
 
-Lemma m_facts f phi : 0 <= f < 1 ->
-  0 <= Rlit 20 (-1) * f - f * f /\ 0 < m_w f phi /\ 0 < sqrt (m_w f phi)
-  /\ 0 < Rpower (m_w f phi) (Rlit 15 (-1)).
-Proof.
-  intro Hf.
-  assert (H1 : 0 <= ecc2 f) by (apply ecc2_nonneg; lra).
-  assert (H2 : 0 < m_w f phi) by (rewrite m_w_eq by lra; apply wfac_pos, Hf).
-  split; [unfold ecc2 in H1; Rlit_norm; lra|]. split; [exact H2 |].
-  split; [apply sqrt_lt_R0, H2 | apply exp_pos].
-Qed.
-
-Ltac prep f phi Hf :=
-  destruct (m_facts f phi Hf) as (H1 & H2 & H3 & H4); unfold m_w, m_e in H2, H3, H4.
